@@ -167,3 +167,14 @@ def ob_e(ob):
     from .C03 import ob_b as sp2_tolerance
 
     sp2_tolerance(ob)
+
+
+# ---- shared obligation: an unrestricted singlet reproduces the restricted answer (and a molecule its stand-alone answer) only if each spin block is diagonalised with the orbital layout of its own molecule ----
+from . import C03 as _C03_mod  # noqa: E402
+
+
+@obligation(PID, "f", title="[shared with C03.e] " + [e for e in __import__("engine.ob", fromlist=["REGISTRY"]).REGISTRY["C03"] if e[1] is _C03_mod.ob_e][0][3])
+def ob_f_shared(ob):
+    """an unrestricted singlet reproduces the restricted answer (and a molecule its stand-alone answer) only if each spin block is diagonalised with the orbital layout of its own molecule"""
+    ob.note("this obligation is the one registered as C03.e; it is also decided here because an unrestricted singlet reproduces the restricted answer (and a molecule its stand-alone answer) only if each spin block is diagonalised with the orbital layout of its own molecule")
+    _C03_mod.ob_e(ob)
